@@ -69,22 +69,23 @@ def _run(text, variant, timeout):
     return p.stdout
 
 
-def run_tree(points, variant="plain", timeout=900):
-    """points: list of parameter dicts.  Returns (values ndarray N x ncol, sigs, problems, gx) ;
-    gx: list of (n_mismatch, text)."""
-    ncol = layout(variant)["T"]["__n__"][0]
-    text = "tree %d\n" % len(points) + "\n".join(
-        " ".join(hexf(x) for x in flat_tree(p)) for p in points) + "\n"
-    out = _run(text, variant, timeout)
-    vals = np.empty((len(points), ncol))
+def _parse_tree(out, ncol, expect):
+    """T lines -> (values ndarray, sigs, problems, gx) ; X lines (exception escaped) -> NaN row, problem 'X: ...'"""
+    vals = np.full((expect, ncol), np.nan)
     sigs, probs, gx = [], [], []
     i = 0
-    fh = float.fromhex
     for ln in out.split("\n"):
+        if ln.startswith("X "):
+            if i >= expect:
+                raise InfraError("mssm harness: more result lines than cases")
+            sigs.append("-"); probs.append("X: " + ln[2:]); gx.append((0, "")); i += 1
+            continue
         if not ln.startswith("T "):
             if ln.startswith("ERR"):
                 raise InfraError("mssm harness: " + ln)
             continue
+        if i >= expect:
+            raise InfraError("mssm harness: more result lines than cases")
         a, prob, g = ln.split("|")
         tk = a.split()
         sigs.append(tk[1])
@@ -95,9 +96,31 @@ def run_tree(points, variant="plain", timeout=900):
         gt = g.split()
         gx.append((int(gt[1]), " ".join(gt[2:])))
         i += 1
-    if i != len(points):
-        raise InfraError("mssm harness: %d results for %d tree cases" % (i, len(points)))
+    if i != expect:
+        raise InfraError("mssm harness: %d results for %d cases" % (i, expect))
     return vals, sigs, probs, gx
+
+
+def run_tree(points, variant="plain", timeout=900):
+    """points: list of parameter dicts.  Returns (values ndarray N x ncol, sigs, problems, gx) ;
+    gx: list of (n_mismatch, text)."""
+    ncol = layout(variant)["T"]["__n__"][0]
+    text = "tree %d\n" % len(points) + "\n".join(
+        " ".join(hexf(x) for x in flat_tree(p)) for p in points) + "\n"
+    return _parse_tree(_run(text, variant, timeout), ncol, len(points))
+
+
+def run_spec(cases, variant="plain", timeout=900):
+    """cases: list of (os point dict, mode 0|1, [5 initial values or nan]).  Three result lines per case
+    (fresh, fresh again, re-used object); returns the same tuple as run_tree with 3 N rows (case-major)."""
+    ncol = layout(variant)["T"]["__n__"][0]
+    rows = []
+    for p, mode, init in cases:
+        f = flat_os(p)
+        f[32] = float(mode)          # spare[0]
+        rows.append(" ".join(hexf(x) if x == x else "nan" for x in f + list(init)))
+    text = "spec %d\n" % len(cases) + "\n".join(rows) + "\n"
+    return _parse_tree(_run(text, variant, timeout), ncol, 3 * len(cases))
 
 
 def run_tsig(points, variant="cov", timeout=900):
